@@ -30,6 +30,7 @@ ASSUMPTIONS = [
     "np.sqrt(2) is used only through sqrt2*sqrt2 = 2 and sqrt2 > 0",
 ]
 TRUSTED = ["numpy einsum as the independent reference for the tensor transformation law and contractions"]
+EXTRA_LEAN_MODULES = ["Proofs.TensorsGroup"]  # projectors = point-group averages; hex image is transversely isotropic
 
 TOL = 1e-9
 
